@@ -48,24 +48,46 @@ theorem zip_map_self {α β} (l : List α) (f : α → β) : l.zip (l.map f) = l
   | nil => rfl
   | cons a as ih => simp [ih]
 
-/-- every default header is a key of a record of the in-memory route -/
-theorem lookup_mkRec (bbox : Bool) (d tr : Region) (l : Line) (k : Str) (hk : k ∈ defaultHeaders bbox) :
+/-- every key of `recKeys` is a key of a record of the in-memory route -/
+theorem lookup_mkRec (bbox : Bool) (d tr : Region) (l : Line) (k : Str) (hk : k ∈ recKeys bbox) :
     ∃ v, lookupKey k (mkRec bbox d tr l) = .ok v := by
   cases bbox <;>
-    simp only [defaultHeaders, baseHeaders, boxHeaders, List.mem_cons, List.mem_append, if_true,
+    simp only [recKeys, baseHeaders, boxHeaders, List.mem_cons, List.mem_append, if_true,
       List.not_mem_nil, or_false, Bool.false_eq_true, if_false, List.append_nil] at hk
   · rcases hk with rfl | rfl | rfl | rfl <;>
       simp [mkRec, lookupKey, sDocId, sRegionId, sLineId, sText]
   · rcases hk with (rfl | rfl | rfl | rfl) | rfl | rfl | rfl <;>
       simp [mkRec, lookupKey, sDocId, sRegionId, sLineId, sText, sDocBox, sRegionBox, sLineBox]
 
-/-- in the default column order the decoded record is the in-memory record with None ↦ '' -/
-theorem zip_default_mkRec (bbox : Bool) (d tr : Region) (l : Line) :
-    (defaultHeaders bbox).zip ((defaultHeaders bbox).map (fieldOf (mkRec bbox d tr l))) =
-      Rec.norm (mkRec bbox d tr l) := by
+/-- the record as it is read from a file written under the header list `hs`: the columns `hs`, in
+    that order, a missing value as '' -/
+def asRead (hs : List Str) (r : Rec) : DRec := hs.map (fun h => (h, fieldOf r h))
+
+/-- in the record's own key order the decoded record is the in-memory record with None ↦ '' -/
+theorem asRead_recKeys_mkRec (bbox : Bool) (d tr : Region) (l : Line) :
+    asRead (recKeys bbox) (mkRec bbox d tr l) = Rec.norm (mkRec bbox d tr l) := by
   cases bbox <;>
-    simp [defaultHeaders, baseHeaders, boxHeaders, fieldOf, mkRec, lookupKey, Rec.norm,
+    simp [asRead, recKeys, baseHeaders, boxHeaders, fieldOf, mkRec, lookupKey, Rec.norm,
       sDocId, sRegionId, sLineId, sText, sDocBox, sRegionBox, sLineBox]
+
+/-- under any header list that is a rearrangement of the record's keys the decoded record is the
+    in-memory record (None ↦ '') with its entries rearranged: the same dictionary -/
+theorem asRead_perm_mkRec (hs : List Str) (bbox : Bool) (hp : hs.Perm (recKeys bbox))
+    (d tr : Region) (l : Line) :
+    (asRead hs (mkRec bbox d tr l)).Perm (Rec.norm (mkRec bbox d tr l)) := by
+  rw [← asRead_recKeys_mkRec]
+  exact hp.map _
+
+theorem fieldOf_eq_dfield (r : Rec) (h : Str) : fieldOf r h = dfield (Rec.norm r) h := by
+  unfold fieldOf dfield Rec.norm
+  induction r with
+  | nil => rfl
+  | cons kv rest ih =>
+    obtain ⟨k, v⟩ := kv
+    simp only [List.map_cons, lookupKey]
+    by_cases e : k = h
+    · simp [e]
+    · simpa [e] using ih
 
 /-- ids and texts of everything that is written are free of tab / CR / LF -/
 def CleanDoc (outer : Bool) (d : Region) : Prop :=
@@ -117,7 +139,7 @@ def rowsOfDocs (hs : List Str) (outer bbox : Bool) (docs : List Region) : List (
   (docs.flatMap (records outer bbox)).map (fun r => hs.map (fieldOf r))
 
 theorem makeLineFormatFile_eq (hs : List Str) (outer bbox : Bool) (docs : List Region)
-    (hsub : ∀ k ∈ hs, k ∈ defaultHeaders bbox) :
+    (hsub : ∀ k ∈ hs, k ∈ recKeys bbox) :
     makeLineFormatFile (some hs) outer bbox docs = .ok (encodeTsv (some hs) (rowsOfDocs hs outer bbox docs)) := by
   unfold makeLineFormatFile rowsOfDocs
   have : ∀ rs : List Rec, (∀ r ∈ rs, ∃ d tr l, r = mkRec bbox d tr l) →
@@ -140,6 +162,10 @@ theorem makeLineFormatFile_eq (hs : List Str) (outer bbox : Bool) (docs : List R
     obtain ⟨d, _, hr⟩ := hr
     obtain ⟨tr, _, l, _, rfl⟩ := mem_records hr
     exact ⟨d, tr, l, rfl⟩
+
+/-- `headers=None`: the writer uses its default columns -/
+theorem makeLineFormatFile_none (outer bbox : Bool) (docs : List Region) :
+    makeLineFormatFile none outer bbox docs = makeLineFormatFile (some allHeaders) outer bbox docs := rfl
 
 theorem rowsOfDocs_ok (hs : List Str) (hne : hs ≠ []) (outer bbox : Bool) (docs : List Region)
     (hclean : ∀ d ∈ docs, CleanDoc outer d) :
@@ -190,8 +216,17 @@ def BoxesOK (outer : Bool) (d : Region) : Prop :=
 
 theorem norm_mkRec (outer : Bool) (d tr : Region) (l : Line) (db tb lb : Box)
     (hd : d.box = some db) (ht : tr.box = some tb) (hl : l.box = some lb) :
-    Rec.norm (mkRec true d tr l) = nrec (planDoc outer d) (toRItem tr) (toLItem l) := by
-  simp [Rec.norm, mkRec, nrec, planDoc, toRItem, toLItem, hd, ht, hl, getBbox]
+    Rec.norm (mkRec true d tr l) = nrecFull (planDoc outer d) (toRItem tr) (toLItem l) := by
+  simp [Rec.norm, mkRec, nrecFull, planDoc, toRItem, toLItem, hd, ht, hl, getBbox]
+
+/-- under any header list: the record read back is the record of the plan -/
+theorem asRead_mkRec (hs : List Str) (outer : Bool) (d tr : Region) (l : Line) (db tb lb : Box)
+    (hd : d.box = some db) (ht : tr.box = some tb) (hl : l.box = some lb) :
+    asRead hs (mkRec true d tr l) = nrec hs (planDoc outer d) (toRItem tr) (toLItem l) := by
+  unfold asRead nrec
+  apply List.map_congr_left
+  intro h _
+  rw [fieldOf_eq_dfield, norm_mkRec outer d tr l db tb lb hd ht hl]
 
 theorem flatMap_congr' {α β} (l : List α) (f g : α → List β) (h : ∀ a ∈ l, f a = g a) :
     l.flatMap f = l.flatMap g := by
@@ -209,14 +244,14 @@ theorem flatMap_filter_nonempty {α β} (l : List α) (f : α → List β) :
     · simp [ih, List.isEmpty_iff.mp h]
     · simp [h, ih]
 
-theorem records_norm_eq_plan (outer : Bool) (d : Region) (hb : BoxesOK outer d) :
-    (records outer true d).map Rec.norm = (planDoc outer d).recs := by
+theorem records_norm_eq_plan (hs : List Str) (outer : Bool) (d : Region) (hb : BoxesOK outer d) :
+    (records outer true d).map (asRead hs) = (planDoc outer d).recs hs := by
   obtain ⟨⟨db, hdb, _⟩, htrs⟩ := hb
   unfold records DItem.recs
   have e1 : (planDoc outer d).regions = (lineRegions outer d).map toRItem := rfl
   rw [e1, List.flatMap_map, lineRegions]
   have e2 : ∀ tr ∈ writtenRegions outer d,
-      (tr.allLines.map (mkRec true d tr)).map Rec.norm = RItem.recs (planDoc outer d) (toRItem tr) := by
+      (tr.allLines.map (mkRec true d tr)).map (asRead hs) = RItem.recs hs (planDoc outer d) (toRItem tr) := by
     intro tr htr
     obtain ⟨⟨tb, htb, _⟩, hls⟩ := htrs tr htr
     unfold RItem.recs
@@ -225,22 +260,23 @@ theorem records_norm_eq_plan (outer : Bool) (d : Region) (hb : BoxesOK outer d) 
     apply List.map_congr_left
     intro l hl
     obtain ⟨lb, hlb, _⟩ := hls l hl
-    exact norm_mkRec outer d tr l db tb lb hdb htb hlb
+    exact asRead_mkRec hs outer d tr l db tb lb hdb htb hlb
   have e3 : (fun tr : Region => !tr.allLines.isEmpty) =
-      (fun tr => !(RItem.recs (planDoc outer d) (toRItem tr)).isEmpty) := by
+      (fun tr => !(RItem.recs hs (planDoc outer d) (toRItem tr)).isEmpty) := by
     funext tr
     simp [RItem.recs, toRItem]
   rw [e3, flatMap_filter_nonempty, List.map_flatMap]
   exact flatMap_congr' _ _ _ e2
 
-theorem docs_records_norm_eq_plan (outer : Bool) (docs : List Region) (hb : ∀ d ∈ docs, BoxesOK outer d) :
-    (docs.flatMap (records outer true)).map Rec.norm = (plan outer docs).flatMap DItem.recs := by
+theorem docs_records_norm_eq_plan (hs : List Str) (outer : Bool) (docs : List Region)
+    (hb : ∀ d ∈ docs, BoxesOK outer d) :
+    (docs.flatMap (records outer true)).map (asRead hs) = (plan outer docs).flatMap (DItem.recs hs) := by
   unfold plan
   rw [List.map_flatMap]
-  have h1 : docs.flatMap (fun d => (records outer true d).map Rec.norm) =
-      (docs.map (planDoc outer)).flatMap DItem.recs := by
+  have h1 : docs.flatMap (fun d => (records outer true d).map (asRead hs)) =
+      (docs.map (planDoc outer)).flatMap (DItem.recs hs) := by
     rw [List.flatMap_map]
-    exact flatMap_congr' _ _ _ (fun d hd => records_norm_eq_plan outer d (hb d hd))
+    exact flatMap_congr' _ _ _ (fun d hd => records_norm_eq_plan hs outer d (hb d hd))
   rw [h1]
   -- documents without regions contribute no records
   generalize docs.map (planDoc outer) = ds
@@ -248,7 +284,7 @@ theorem docs_records_norm_eq_plan (outer : Bool) (docs : List Region) (hb : ∀ 
   | nil => rfl
   | cons a as ih =>
     by_cases h : a.regions.isEmpty
-    · have : DItem.recs a = [] := by simp [DItem.recs, List.isEmpty_iff.mp h]
+    · have : DItem.recs hs a = [] := by simp [DItem.recs, List.isEmpty_iff.mp h]
       simp [h, this, ih]
     · simp [h, ih]
 
